@@ -8,6 +8,7 @@ open C04Model
 open C04AsmModel
 open C04AllocModel
 open C04MfraModel
+open C04TreeModel
 
 let zarg s = z_of_hex s
 
@@ -164,8 +165,9 @@ let () =
              | OutOfFuel -> L.rev ("FUEL" :: acc)) in
         let m = S.concat "," (go (rnew (bytes_of_hex bufhex)) ops []) in
         if m = obs then Printf.printf "OK %s\n" id else Printf.printf "MISMATCH %s reader model=%s\n" id m
-      | ["B"; id; hex; o1; o2] ->
+      | [("B" | "G") as knd; id; hex; o1; o2] ->
         let bs = bytes_of_hex hex in
+        let std_leaves = if knd = "G" then tbl_leaves else std_leaves in
         let m1 =
           match box_r std_leaves bs with
           | (Ok BEof, _) -> "eof"
